@@ -37,6 +37,38 @@ CHECKS = {
    text="ExecMC.tla model-checks the value-movement design (transfer, fee, pay-left-as-fee, admin split) exhaustively for small balances: no creation, rounding loss < #admins per transaction, no negative balance. On real traces TLC checks per block that the sum of all account balances does not increase, no balance is negative, the loss is bounded by (#admins-1) per transaction, and on single-transaction blocks that a transfer moves exactly the stated amount / a failed one leaves the receiver untouched (amounts 0, 1, exact balance, balance+1, 2^63, 1e40, non-numeric, negative; self / admin / contract receivers; senders around each fee level; 3, 4 and 9 admins).",
    note="trusted: TLC, harness decoding; documented admin grants are exercised in the Governance family",
    technique="TLA+ spec + TLC exhaustive MC; TLC trace validation of the real executor"),
+ "C02": dict(engine="Interchain", design_ref="DESIGN.md §3.5, §5 C02",
+   text="Interchain.tla is the protocol machine of IBTP handling (acceptance rule, counters, one-to-one and grouped transaction records, expiry at block end), model-checked exhaustively over bounded request / receipt / empty-block sequences. The real executor runs seeded interchain scenarios on a lockstep node pair; TLC binds acceptance to each receipt, judges every accepted IBTP (C02_InOrder, C02_ReceiptInOrder, C02_ReceiptAfterRequest), and after every block compares the four observed counters of every service with the machine (C02_CountersEqualHistory) and the block's delivery metadata with the accepted requests (C02_DeliveredOnce, C02_DeliveredOnlyAccepted); rejected IBTPs must leave no state delta (C07 formulas on the same traces).",
+   note="trusted: TLC, harness/core + interadp decoding; other-BitXHub traffic only as unavailable destination / rejected source; unordered (batch) destinations excluded from the order clause",
+   technique="TLA+ protocol machine + TLC exhaustive MC; TLC trace validation of the real executor"),
+ "C03": dict(engine="Interchain", design_ref="DESIGN.md §3.5, §5 C03",
+   text="Same traces: every IBTP carries the abstract proof class (hash matches / mismatches / absent) and origin; an accepted IBTP whose proof does not verify violates C03_Gate; a failed one must leave no state delta beyond nonce and fee (sibling-node diff); direct invocations of HandleIBTPData and of the transaction-manager entry points by external accounts must not change counters, records or delivery metadata (counters / status comparison after every block).",
+   note="trusted: TLC, harness; only the built-in accept-all rule and hash-level proof classes are driven: rule engines returning plain false, rule changes and validator-signature thresholds of other BitXHubs are NOT covered yet",
+   technique="TLA+ protocol machine gating clause; TLC trace validation of the real executor"),
+ "C04": dict(engine="Interchain", design_ref="DESIGN.md §3.5, §5 C04",
+   text="The status machine (NextStatus) is part of Interchain.tla; TLC checks C04_Step and C04_FinalStable as action properties over all bounded sequences incl. receipts in the expiry block and after final states. On real traces every accepted receipt must be a legal transition (C04_Step) and the status query of every id ever submitted must equal the machine's status after every block (C04_QueryAgrees), with timed scenarios placing each receipt type before, at and after H+T.",
+   note="trusted: TLC, harness; inter-BitXHub notices not driven",
+   technique="TLA+ action properties checked by TLC; TLC trace validation of the real executor"),
+ "C05": dict(engine="Interchain", design_ref="DESIGN.md §3.5, §5 C05",
+   text="Groups are part of the protocol machine; TLC checks C05_SuccessOnlyIfAll, C05_NeverSuccessAfterFailure, C05_AllChildrenFail on all bounded sequences of a two-child group. On real traces the stored group record (global state and every child's status) must equal the machine after every block (C05_GroupState), and when a group expires the block's timeout metadata must list every child under the source chain and every already succeeded child under its destination chain (C05_NotifyInSameBlock).",
+   note="trusted: TLC, harness; notification lists of failure-by-receipt (MultiTxCounter) are compared between replicas (C01) but not yet against the machine",
+   technique="TLA+ invariants checked by TLC; TLC trace validation of the real executor"),
+ "C06": dict(engine="Interchain", design_ref="DESIGN.md §3.5, §5 C06",
+   text="Expiry is the EndBlock step of the machine; TLC checks C06_FiresAt / C06_NoLateBegin (a BEGIN transaction is rolled back exactly in block H+T) over all bounded sequences. On real traces, after every block, exactly the transactions that expire in this block must be BEGIN_ROLLBACK and be listed once under their source chain in the block's timeout metadata, nothing else may be listed (C06_OnlyExpired), receipts accepted up to and including H+T prevent it, T=0 and huge T never expire; the same for groups (C06_GroupFiresAt); restarts are placed between H and H+T.",
+   note="trusted: TLC, harness",
+   technique="TLA+ action properties checked by TLC; TLC trace validation of the real executor"),
+ "C16": dict(engine="Interchain", design_ref="DESIGN.md §3.5/3.6, §5 C16",
+   text="Gating half of C16: services and appchains are frozen / activated / logged out through real proposals and votes between IBTP traffic and restarts; an accepted request whose source service is not available violates C16_SourceAvailable, and the begin-failure decision must equal the destination gate (exists and available) (C16_DestGate). The lifecycle half (status machines of appchains, services, rules, roles, nodes) is checked in the Governance family.",
+   note="trusted: TLC, harness; blacklist permission not driven yet",
+   technique="TLA+ protocol machine gating clauses; TLC trace validation of the real executor"),
+ "C01": dict(engine="Replicas", design_ref="DESIGN.md §3.8, §5 C01",
+   text="Replicas.tla states agreement; ReplicasMC enumerates all placements of stop / start / view steps of 3 replicas over a chain. Every interchain scenario (random, group-heavy, timed; IBTP one-to-one and grouped, governance, transfers, failing transactions) is executed on a reference node and three perturbed real replicas (restart before every block + parallel proof goroutines; serial + view execution before every block; reopen right after genesis + random restarts), all fed byte-identical blocks; TLC compares block hash, parent, state / tx / receipt / timeout roots, every receipt and the ordered delivery / timeout / multi-tx metadata of every height.",
+   note="trusted: TLC, harness digest; map-iteration order and goroutine schedules are sampled by repetition; XVM/EVM transactions not in the corpus",
+   technique="TLA+ agreement spec; multi-replica real-code traces validated by TLC"),
+ "C20": dict(engine="Ordering", design_ref="DESIGN.md §3.9, §5 C20; spec/Ordering.README.md",
+   text="Ordering.tla models what bitxhub adds on top of etcd/raft (lastExec, applied index, height->index map, durable applied key, batch sequence, snapshots, reports in any order, crash / restart / snapshot install) and solo; TLC checks the five C20 formulas exhaustively for 1, 2 and 3 replicas. SyncRange.tla transcribes calcRangeHeight and every model case is executed on the real function. Real solo.NewNode, etcdraft.NewNode x1 and x3 (in-memory peer manager with drop / duplicate / delay / partition, scripted executor and crash points) produce per-node delivery traces that TLC validates against the same formulas.",
+   note="trusted: TLC, etcd/raft + WAL + leveldb, harness/cmd/orderadp; 3-node interleavings are sampled in real time; two known findings listed",
+   technique="TLA+ spec + TLC exhaustive MC; real raft/solo node traces validated by TLC"),
 }
 NOT_YET = "check not built yet (work in progress; see DESIGN.md build order)"
 
